@@ -32,6 +32,15 @@ def seqs(K, rnd, n_random, length):
         for re in ('acqe1:1', 'acq1:1', 'acqe0:1', 'acq2:1', 'cpy0:2,acq1:2'):
             out.append('acq0:0,cpy0:1,%s,%s,tch0,tch1,%s,rst0,%s,tch1' % (adv, re, adv, re))
             out.append('acq0:0,cpy0:1,cpy1:2,%s,%s,%s,tch0,tch1,tch2' % (adv, re, re.replace(':1', ':2')))
+    # exhaustion reached by a copy / an acquisition onto an EMPTY guard: the guard that failed must stay empty (or really protect);
+    # afterwards a slot is released, the object is retired through another guard (scan) and the failed guard is used again
+    if K + 1 <= ng:
+        fill = ','.join('acq%d:%d' % (i % 3, i) for i in range(K))
+        other = 1 if K >= 2 else 0
+        for fail in ('cpy0:%d' % K, 'acq0:%d' % K, 'acqe0:%d' % K, 'mov0:%d,cpy%d:0' % (K, K)):
+            out.append('%s,%s,rst0,swp0:%d,tch%d' % (fill, fail, other, K))
+            out.append('%s,%s,rst%d,acq0:%d,rst0,swp0:%d,tch%d' % (fill, fail, other, K, other, K))
+            out.append('%s,%s,rst%d,acq0:%d,tch%d,rst0,swp0:%d,swp1:%d,tch%d' % (fill, fail, other, K, K, other, other, K))
     for i in range(n_random):
         out.append(','.join(rnd.choice(ops) for _ in range(length)))
     return out
